@@ -40,7 +40,8 @@ import re
 import struct
 import types
 
-STREAMS = ['cvt-direct', 'interleave-exhaustive', 'random-schedules', 'reentrant', 'serial-reuse', 'not-ready']
+STREAMS = ['cvt-direct', 'interleave-exhaustive', 'random-schedules', 'reentrant', 'disconnect-callbacks',
+           'serial-reuse', 'not-ready']
 THEOREMS = [
     'refinement',
     'exactly_once',
@@ -110,6 +111,13 @@ RET_VARIANTS = [
     ('a(ii)', [[[1, 2], [3, 4]]]),
     ('sss', ['a', 'b', 'c']),
     ('d', [0.0]),
+    ('ay', [[1, 2]]),
+    ('a{sv}', [{'k': 5}]),
+    ('v', [(1, 2)]),
+    ('av', [[1, 'x']]),
+    ('x', [2 ** 40]),
+    ('s(ii)', ['a', [1, 2]]),
+    ('ay', [[]]),
 ]
 # (error name, signature, body) of error replies as sent
 ERR_VARIANTS = [
@@ -221,6 +229,13 @@ def patched_reply(message, kind, variant, reply_serial, own_serial):
     return raw[:8] + struct.pack('<I', own_serial) + raw[12:off] + struct.pack('<I', reply_serial) + raw[off + 4:]
 
 
+UNIT = 0.5      # seconds of virtual time between two expiry operations (sub-second timeouts occur)
+
+
+class DisconnectCallbackBoom(Exception):
+    """What a raising disconnect callback of the harness raises."""
+
+
 class SetupFailure(Exception):
     """The connection could not be brought to the ready state: the Hello call - itself a remote call - was
     not completed by its matching return."""
@@ -274,7 +289,10 @@ class Impl:
         self.keep = []         # keeps Deferreds / messages alive (ids stay unique)
         self.calls = []        # per did: {'serial', 'er', 'tmo', 'rs', 'bad', 'mcall', 'ref'}
         self.top = []          # k-th top-level call operation -> did
-        self.rdid = {}         # (k, j) -> did of the j-th call issued by the errback of top-level call k
+        self.rdid = {}         # ('r'|'s'|'d', k, j) -> did of the j-th call issued by that callback
+        self.dcs = []          # disconnect callbacks registered so far
+        self.others = []       # other connections of the process
+        self.is_lost = False
         self.created = []      # dids created during the current operation, in order
         self.harness_error = None
         self.n_expire = 0
@@ -288,11 +306,12 @@ class Impl:
     # -- references to calls ----------------------------------------------------
     @staticmethod
     def refkey(ref):
-        """int k = the k-th top-level call operation; ['r', k, j] = the j-th call issued by its errback."""
+        """int k = the k-th top-level call operation; ['r', k, j] / ['s', k, j] = the j-th call issued by its
+        errback / its callback; ['d', i, j] = the j-th call issued by the i-th disconnect callback."""
         if isinstance(ref, int):
             return ('t', ref)
-        if isinstance(ref, (list, tuple)) and ref and ref[0] == 'r':
-            return ('r', ref[1], ref[2])
+        if isinstance(ref, (list, tuple)) and ref and ref[0] in ('r', 's', 'd') and len(ref) == 3:
+            return (ref[0], ref[1], ref[2])
         return None
 
     def resolve(self, ref):
@@ -302,28 +321,34 @@ class Impl:
             return None
         if key[0] == 't':
             return self.top[key[1]] if key[1] < len(self.top) else None
-        return self.rdid.get((key[1], key[2]))
+        return self.rdid.get(key)
 
-    def _attach(self, did, d, react=None, k=None):
-        """Record every firing of `d`; `react` = list of [tmo, rs]: calls the errback issues at once (a retry)."""
+    def _attach(self, did, d, react=None, react_ok=None, k=None):
+        """Record every firing of `d`; `react` / `react_ok` = lists of [tmo, rs]: calls the errback / the callback
+        issues at once, from inside whatever function of the connection fired the Deferred."""
         self.dids[id(d)] = did
         self.keep.append(d)
         rec = self.rec
 
+        def again(kind, calls):
+            try:
+                for j, (tmo, rs) in enumerate(calls):
+                    self._issue((kind, k, j), 1, tmo, rs)
+            except Exception as e:          # the harness's own failure must not vanish inside the Deferred
+                self.harness_error = e
+
         def cb(v):
             rec.append((did, 'cb', v))
+            if react_ok:
+                again('s', react_ok)
 
         def eb(f):
             rec.append((did, 'eb', f))
             if react:
-                try:
-                    for j, (tmo, rs) in enumerate(react):
-                        self._issue(('r', k, j), 1, tmo, rs)
-                except Exception as e:          # the harness's own failure must not vanish inside the Deferred
-                    self.harness_error = e
+                again('r', react)
         d.addCallbacks(cb, eb)
 
-    def _issue(self, key, er, tmo, rs, react=None):
+    def _issue(self, key, er, tmo, rs, react=None, react_ok=None):
         """callRemote; returns (did, serial).  The serial is read from the bytes the connection wrote."""
         did = len(self.calls)
         kw = {}
@@ -335,26 +360,30 @@ class Impl:
                                  expectReply=bool(er), timeout=timeout, **kw)
         sent = self.tr.value()[mark:]
         serial = le32(sent[8:12]) if len(sent) >= 16 else None
-        self.calls.append({'serial': serial, 'er': bool(er), 'tmo': tmo, 'rs': rs, 'bad': serial is None,
-                           'ref': key, 'react': react})
+        # nothing written: the message could not be built - or (a conceivable repair) the connection refuses
+        # calls once it is lost
+        self.calls.append({'serial': serial, 'er': bool(er), 'tmo': tmo, 'rs': rs,
+                           'bad': serial is None and not self.is_lost, 'unsent': serial is None and self.is_lost,
+                           'ref': key})
         self.created.append(did)
         if key[0] == 't':
             self.top.append(did)
         else:
-            self.rdid[(key[1], key[2])] = did
-        self._attach(did, d, react, key[1] if key[0] == 't' else None)
+            self.rdid[key] = did
+        self._attach(did, d, react, react_ok, key[1] if key[0] == 't' else None)
         return did, serial
 
     def plan_deadlines(self, ops):
-        """The j-th expire operation of the scenario advances the clock to 10*j; the call it names gets that
+        """The j-th expiry operation of the scenario advances the clock to UNIT*j; the call(s) it names get that
         absolute deadline (its first mention after the call exists); timers never expired in the scenario get a far
-        deadline."""
+        deadline.  `expire2` names two calls: equal deadlines, both due in one `Clock.advance`."""
         j = 0
         pos = {}
         for op in ops:
-            if op[0] == 'expire':
+            if op[0] in ('expire', 'expire2'):
                 j += 1
-                pos.setdefault(self.refkey(op[1]), []).append(j)
+                for ref in op[1:]:
+                    pos.setdefault(self.refkey(ref), []).append(j)
         self.expire_pos = pos
 
     def timeout_for(self, key, did, tmo):
@@ -363,12 +392,12 @@ class Impl:
         if tmo == 'Z':
             return 0 if did % 2 == 0 else 0.0
         later = [j for j in self.expire_pos.get(key, []) if j > self.n_expire]
-        deadline = 10.0 * later[0] if later else 1.0e6 + did
+        deadline = UNIT * later[0] if later else 1.0e6 + did
         delta = deadline - self.clock.seconds()
         assert delta > 0
         self.deadline[did] = deadline
         if did % 2 == 0 and delta == int(delta):
-            return int(delta)
+            return True if delta == 1 and did % 4 == 0 else int(delta)      # True is the int 1
         return delta
 
     def serial_of(self, who):
@@ -376,7 +405,8 @@ class Impl:
         if key is not None:
             did = self.resolve(who)
             if did is None or self.calls[did]['serial'] is None:
-                return 0x7e000000 + (hash(key) % 4096)        # a reply for a call that does not exist
+                # a reply for a call that does not exist (yet): a serial nobody uses, the same in every run
+                return 0x7e000000 + 64 * key[1] + (1 + 'rsd'.index(key[0]) * 16 + key[2] if key[0] != 't' else 0)
             return self.calls[did]['serial']
         kind, n = who
         if kind == 'u':
@@ -406,9 +436,13 @@ class Impl:
         sig, body = parsed_view(sig, body)
         return 'err %d %s %s' % (serial, 'S' + str_hex(name), body_tok(body))
 
+    @staticmethod
+    def newcalls_line(kind, k, calls):
+        return ' '.join('%s %s {%s:%d:%d}' % (t, rs_tok(r), kind, k, j) for j, (t, r) in enumerate(calls))
+
     def do(self, op):
         """Run one operation; returns (model lines, fault names, reply serials used, dids the operation names).
-        A model line may contain placeholders `{r:k:j}` (serial of a call an errback will issue), filled in by
+        A model line may contain placeholders `{r:k:j}` (serial of a call a callback will issue), filled in by
         `finish_lines` when the scenario is over."""
         kind = op[0]
         lines, faults, serials, targets = [], [], [], []
@@ -427,24 +461,36 @@ class Impl:
             if kind == 'call':
                 er, tmo, rs = op[1], op[2], op[3]
                 react = op[4] if len(op) > 4 and op[4] and er else None
+                react_ok = op[5] if len(op) > 5 and op[5] and er else None
                 k = len(self.top)
-                did, serial = self._issue(('t', k), er, tmo, rs, react)
+                did, serial = self._issue(('t', k), er, tmo, rs, react, react_ok)
                 if serial is None:
-                    self.calls[did]['bad'] = True
                     lines.append('callbad %s' % rs_tok(rs))
                 else:
                     lines.append('call %d %d %s %s' % (serial, 1 if er else 0, tmo, rs_tok(rs)))
                     if react:
-                        lines.append('onerr %d %s' % (did, ' '.join(
-                            '%s %s {r:%d:%d}' % (t, rs_tok(r), k, j) for j, (t, r) in enumerate(react))))
-            elif kind == 'callbad':
+                        lines.append('onerr %d %s' % (did, self.newcalls_line('r', k, react)))
+                    if react_ok:
+                        lines.append('onok %d %s' % (did, self.newcalls_line('s', k, react_ok)))
+            elif kind in ('callbad', 'callbig'):
                 rs = op[1]
                 did = len(self.calls)
                 kw = {}
                 if rs != 'K':
                     kw['returnSignature'] = rs
                 mark = len(self.tr.value())
-                d = self.conn.callRemote('/obj', 'bad member!', interface='org.t.Iface', **kw)
+                if kind == 'callbad':
+                    d = self.conn.callRemote('/obj', 'bad member!', interface='org.t.Iface', **kw)
+                else:
+                    # message larger than the maximum: raised by _marshal AFTER the serial was taken
+                    cls = self.message.DBusMessage
+                    saved = cls._maxMsgLen
+                    cls._maxMsgLen = 120
+                    try:
+                        d = self.conn.callRemote('/obj', 'Method', interface='org.t.Iface', destination='org.t.Dest',
+                                                 signature='s', body=['x' * 300], **kw)
+                    finally:
+                        cls._maxMsgLen = saved
                 sent = self.tr.value()[mark:]
                 self.calls.append({'serial': None, 'er': True, 'tmo': 'N', 'rs': rs, 'bad': True,
                                    'sent': len(sent), 'ref': ('t', len(self.top))})
@@ -472,20 +518,41 @@ class Impl:
                 self.top.append(did)
                 self._attach(did, d)
                 lines.append('call %d 1 %s K' % (c['serial'], c['tmo']))
+            elif kind == 'ondisc':
+                i = len(self.dcs)
+                action = op[1]
+                self.dcs.append(action)
+                if action == 'raise':
+                    def dc(conn, reason):
+                        raise DisconnectCallbackBoom('disconnect callback %d raises' % i)
+                    lines.append('ondisc raise')
+                else:
+                    def dc(conn, reason, i=i, action=action):
+                        for j, (tmo, rs) in enumerate(action):
+                            self._issue(('d', i, j), 1, tmo, rs)
+                    lines.append('ondisc calls %s' % self.newcalls_line('d', i, action))
+                self.conn.notifyOnDisconnect(dc)
+            elif kind == 'otherconn':
+                self.other_connection()
             elif kind in ('ret', 'err', 'group'):
                 self.conn.dataReceived(data)
-            elif kind == 'expire':
+            elif kind in ('expire', 'expire2'):
                 self.n_expire += 1
-                did = self.resolve(op[1])
-                targets.append(did)
-                lines.append('expire %d' % (did if did is not None else 999999))
-                target = 10.0 * self.n_expire
+                ds = [self.resolve(ref) for ref in op[1:]]
+                targets.extend(ds)
+                # equal deadlines run in the order the timers were created = the order of the calls
+                for did in sorted(ds, key=lambda x: (x is None, x)):
+                    lines.append('expire %d' % (did if did is not None else 999999))
+                target = UNIT * self.n_expire
                 self.clock.advance(target - self.clock.seconds())
             elif kind == 'lost':
                 lines.append('lost %d' % op[1])
+                self.is_lost = True
                 self.conn.connectionLost(self.reason(op[1]))
             else:
                 raise ValueError('unknown op %r' % (op,))
+        except DisconnectCallbackBoom:
+            faults.append('callbackRaised')
         except KeyError:
             faults.append('keyError')
         except (self.terror.AlreadyCalled, self.terror.AlreadyCancelled):
@@ -499,15 +566,40 @@ class Impl:
         self.tr.clear()
         return lines, faults, serials, targets
 
+    def other_connection(self):
+        """A second connection of the same process (own transport, same reactor), made ready, with one call
+        outstanding that nothing in the scenario ever answers: whatever happens on the first connection, it must
+        neither complete nor disappear."""
+        from twisted.internet.testing import StringTransport
+        m = self.message
+        f = self.client.DBusClientFactory()
+        c = f.buildProtocol(None)
+        t = StringTransport()
+        c.makeConnection(t)
+        t.clear()
+        c.dataReceived(b'OK 1234deadbeef\r\n')
+        hello = le32(t.value()[7 + 8:7 + 12])
+        c.dataReceived(m.MethodReturnMessage(hello, signature='s', body=[':1.43']).rawMessage)
+        t.clear()
+        d = c.callRemote('/obj', 'Method', interface='org.t.Iface', destination='org.t.Dest')
+        serial = le32(t.value()[8:12])
+        fired = []
+        d.addBoth(fired.append)
+        self.others.append({'conn': c, 'serial': serial, 'fired': fired, 'ready': c.busName == ':1.43'})
+
     def finish_lines(self, lines):
-        """Fill in the serials of the calls issued by errbacks (an errback that never ran: any unused serial)."""
+        """Fill in the serials of the calls issued by callbacks (a callback that never ran: any unused serial)."""
         def sub(m):
-            k, j = int(m.group(1)), int(m.group(2))
-            did = self.rdid.get((k, j))
+            key = (m.group(1), int(m.group(2)), int(m.group(3)))
+            did = self.rdid.get(key)
             if did is None or self.calls[did]['serial'] is None:
-                return str(0x7d000000 + 64 * k + j)
+                return str(0x7d000000 + 64 * key[1] + 'rsd'.index(key[0]) * 16 + key[2])
             return str(self.calls[did]['serial'])
         return [PLACEHOLDER_RE.sub(sub, ln) for ln in lines]
+
+    def my_delayed(self):
+        """Delayed calls of THIS connection (another connection of the process uses the same reactor)."""
+        return [dc for dc in self.clock.getDelayedCalls() if getattr(dc.func, '__self__', None) is self.conn]
 
     # -- canonical observation -------------------------------------------------
     def outcome_str(self, did, kind, val):
@@ -553,7 +645,7 @@ class Impl:
         for serial, (d, timeout) in self.conn._pendingCalls.items():
             ps.append('%d:%s:%s' % (serial, self.dids.get(id(d), '?'), 't' if timeout else '-'))
         ts = []
-        for dc in self.clock.getDelayedCalls():
+        for dc in self.my_delayed():
             a = dc.args
             if len(a) == 2 and id(a[1]) in self.dids:
                 ts.append((self.dids[id(a[1])], a[0]))
@@ -564,7 +656,7 @@ class Impl:
                                             ','.join('%d:%d' % t for t in ts), ','.join(faults))
 
 
-PLACEHOLDER_RE = re.compile(r'\{r:(\d+):(\d+)\}')
+PLACEHOLDER_RE = re.compile(r'\{([rsd]):(\d+):(\d+)\}')
 LINE_RE = re.compile(r'^F\[(.*)\] P\[(.*)\] T\[(.*)\] X\[(.*)\]$')
 
 
@@ -623,6 +715,15 @@ class Monitor:
 
     def bad(self, key, text):
         self.problems.append((key, text))
+
+    def is_loss_reason(self, k, v):
+        """An errback with the reason connectionLost was given (the Failure, or one carrying its exception) - or,
+        for a call made on a connection that is already gone, any connection-closed failure."""
+        if k != 'eb':
+            return False
+        if any(v is r or v.value is r.value for r in self.im.reasons.values()):
+            return True
+        return isinstance(v.value, self.im.terror.ConnectionClosed)
 
     def open_with_serial(self, serial):
         return [d for d, s in self.state.items() if s == 'open' and self.im.calls[d]['serial'] == serial
@@ -694,7 +795,7 @@ class Monitor:
         if kind == 'hello':
             self.state[0] = 'skip'
             return
-        if kind in ('call', 'callbad', 'recall'):
+        if kind in ('call', 'callbad', 'callbig', 'recall'):
             did = st.created[0]
             c = im.calls[did]
             if c.get('bad'):
@@ -731,13 +832,14 @@ class Monitor:
                     name, sig, body = ERR_VARIANTS[sub[2]]
                     into[did] = (lambda k, v, did=did, name=name, sig=sig, body=body:
                                  self.expect_error(did, name, sig, body, k, v))
-        elif kind == 'expire':
-            did = st.targets[0] if st.targets else None
-            if did is not None and self.state.get(did) == 'open' and im.calls[did]['tmo'] == 'P' and im.calls[did]['er']:
-                def chk(k, v, did=did):
-                    if not (k == 'eb' and isinstance(v.value, im.error.TimeOut)):
-                        self.bad('deadline-not-timeout', 'call %d: deadline passed, delivered %s' % (did, _short(k, v)))
-                expected[did] = chk
+        elif kind in ('expire', 'expire2'):
+            for did in st.targets:
+                if did is not None and self.state.get(did) == 'open' and im.calls[did]['tmo'] == 'P' \
+                        and im.calls[did]['er'] and not im.calls[did].get('unsent'):
+                    def chk(k, v, did=did):
+                        if not (k == 'eb' and isinstance(v.value, im.error.TimeOut)):
+                            self.bad('deadline-not-timeout', 'call %d: deadline passed, delivered %s' % (did, _short(k, v)))
+                    expected[did] = chk
             # timeout=0: the statement does not say whether that is "no deadline" (what the code does) or a
             # deadline that has passed at once; a TimeOut for such a call when the clock moves is accepted
             for z, s in self.state.items():
@@ -756,6 +858,12 @@ class Monitor:
                     expected[did] = chk
             self.lost = True
 
+        # a raising disconnect callback that connectionLost lets through ends connectionLost before the pending
+        # calls are failed: one finding (F-1), not a shower of generic ones
+        aborted = kind == 'lost' and 'callbackRaised' in st.faults
+        # calls issued while / after the connection is lost: failing them at once with the loss reason is as
+        # good as leaving them to their deadline
+        late = set(st.created) if self.lost else set()
         # (1) exactly once / attribution: the Deferreds that fired in this step are exactly the expected ones
         seen = {}
         for did, k, v in st.new:
@@ -766,16 +874,32 @@ class Monitor:
             if did in optional and did not in expected:
                 optional[did](k, v)
                 self.state[did] = 'done'
+            elif did not in expected and (did in late or did in self.postloss) and self.state.get(did) != 'done' \
+                    and self.is_loss_reason(k, v):
+                self.state[did] = 'done'
             elif did not in expected:
                 why = 'it had already completed' if self.state.get(did) == 'done' else 'nothing addressed to it happened'
                 self.bad('completion-without-cause', 'call %d fired (%s) on %r although %s' % (did, _short(k, v), op, why))
             else:
                 expected[did](k, v)
-        for did in expected:
-            if did not in seen:
-                self.bad('completion-missing', 'call %d did not complete on %r' % (did, op))
-            self.state[did] = 'done'
+        if aborted:
+            missing = sorted(d for d in expected if d not in seen)
+            for did in expected:
+                if did in seen:
+                    self.state[did] = 'done'
+            if missing:
+                self.bad('loss-aborted-by-raising-disconnect-callback',
+                         'a disconnect callback raised and connectionLost let the exception through: call(s) %r were '
+                         'not failed with the loss reason, %d entr(ies) stay in _pendingCalls, %d timer(s) stay scheduled'
+                         % (missing, len(im.conn._pendingCalls), len(im.my_delayed())))
+        else:
+            for did in expected:
+                if did not in seen:
+                    self.bad('completion-missing', 'call %d did not complete on %r' % (did, op))
+                self.state[did] = 'done'
         for f in st.faults:
+            if f == 'callbackRaised':
+                continue        # the caller's own exception; what matters is what it did to the calls (above)
             key = 'double-completion' if f == 'exc:AlreadyCalledError' else 'operation-raised'
             self.bad(key, '%r raised %s out of the connection' % (op, f))
         # calls issued by errbacks that ran during this operation (retries) are issued calls like any other
@@ -784,10 +908,14 @@ class Monitor:
                 self.postloss.add(did)
             if did not in self.state:
                 self.state[did] = 'open'
+        # a call the connection did not even send because it is gone: only owed what it may get
+        for did in st.created:
+            if im.calls[did].get('unsent'):
+                self.postloss.add(did)
 
         # (2) no residue for completed calls; nothing at all after a loss
         pend = im.conn._pendingCalls
-        delayed = im.clock.getDelayedCalls()
+        delayed = im.my_delayed()
         for did, s in self.state.items():
             if s != 'done':
                 continue
@@ -803,10 +931,19 @@ class Monitor:
         # wait for a reply under a deadline
         waiting = sum(1 for did, s in self.state.items() if s == 'open' and im.calls[did]['er']
                       and not im.calls[did].get('bad') and im.calls[did]['tmo'] in ('P', 'Z'))
+        for o in im.others:
+            if o['fired']:
+                self.bad('other-connection-affected', "a call outstanding on ANOTHER connection of the process was "
+                         'completed (%r) by %r on this one' % (o['fired'][0], op))
+                o['fired'] = []
+            elif o['ready'] and list(o['conn']._pendingCalls) != [o['serial']]:
+                self.bad('other-connection-affected', "the table of another connection changed to %r on %r"
+                         % (sorted(o['conn']._pendingCalls), op))
+                o['ready'] = False
         if len(delayed) > waiting:
             self.bad('residue-timer', '%d delayed call(s) scheduled, only %d call(s) still wait under a deadline'
                      % (len(delayed), waiting))
-        if kind == 'lost':
+        if kind == 'lost' and not aborted:
             # what the errbacks issued while the connection was being torn down is new bookkeeping, not residue
             mine = {im.calls[d]['serial'] for d in st.created}
             left = sorted(k for k in pend if k not in mine)
@@ -1075,7 +1212,7 @@ def gen_reentrant_systematic():
 
 def gen_reentrant_random(rng):
     n = rng.randint(1, 5)
-    ops, tops = [], []           # tops: per top-level call {'tmo', 'react'}
+    ops, tops, dcs = [], [], []  # tops: per top-level call {'tmo', 'react', 'react_ok'}; dcs: disconnect callbacks
     lost = False
     for _ in range(rng.randint(n + 1, 4 * n + 6)):
         r = rng.random()
@@ -1083,24 +1220,86 @@ def gen_reentrant_random(rng):
             tmo = rng.choice('PPN')
             rs = rng.choice(['K', 'K', 's', 'i'])
             react = [[rng.choice('PPNZ'), rng.choice(['K', 'K', 's'])] for _ in range(rng.choice([0, 1, 1, 2]))]
-            ops.append(['call', 1, tmo, rs, react] if react else ['call', 1, tmo, rs])
-            tops.append({'tmo': tmo, 'react': react})
+            react_ok = [[rng.choice('PPNZ'), 'K'] for _ in range(rng.choice([0, 0, 1, 2]))]
+            if rng.random() < 0.06:
+                ops.append([rng.choice(['callbad', 'callbig']), rs])
+                tops.append({'tmo': 'N', 'react': [], 'react_ok': [], 'bad': True})
+                continue
+            op = ['call', 1, tmo, rs]
+            if react or react_ok:
+                op.append(react)
+            if react_ok:
+                op.append(react_ok)
+            ops.append(op)
+            tops.append({'tmo': tmo, 'react': react, 'react_ok': react_ok})
             continue
+        if r < 0.33 and not lost:
+            q = rng.random()
+            if q < 0.4:
+                ops.append(['ondisc', [[rng.choice('PN'), 'K'] for _ in range(rng.randint(1, 2))]])
+                dcs.append(ops[-1][1])
+                continue
+            if q < 0.6:
+                ops.append(['otherconn'])
+                continue
         if not lost and r < 0.4:
             ops.append(['lost', rng.randrange(3)])
             lost = True
             continue
-        refs = list(range(len(tops)))
+        refs = [k for k, t in enumerate(tops) if not t.get('bad')]
         refs += [['r', k, j] for k, t in enumerate(tops) for j in range(len(t['react']))]
+        refs += [['s', k, j] for k, t in enumerate(tops) for j in range(len(t['react_ok']))]
+        refs += [['d', i, j] for i, a in enumerate(dcs) for j in range(len(a))]
+        if not refs:
+            continue
+
+        def tmo_of(w):
+            if isinstance(w, int):
+                return tops[w]['tmo']
+            if w[0] == 'd':
+                return dcs[w[1]][w[2]][0]
+            return tops[w[1]]['react' if w[0] == 'r' else 'react_ok'][w[2]][0]
         who = rng.choice(refs)
-        tmo = tops[who]['tmo'] if isinstance(who, int) else tops[who[1]]['react'][who[2]][0]
+        tmo = tmo_of(who)
         if tmo == 'P' and rng.random() < 0.5:
-            ops.append(['expire', who])
+            other = [w for w in refs if w != who and tmo_of(w) == 'P']
+            if other and rng.random() < 0.3:
+                ops.append(['expire2', who, rng.choice(other)])     # equal deadlines, one Clock.advance
+            else:
+                ops.append(['expire', who])
         elif rng.random() < 0.55:
             ops.append(['err', who, rng.randrange(len(ERR_VARIANTS))])
         else:
             ops.append(['ret', who, rng.randrange(len(RET_VARIANTS))])
     return {'stream': 'reentrant', 'ready': True, 'serial0': rng.choice([1, 1, 300]), 'ops': ops}
+
+
+DC_ACTIONS = [['raise'], [[['P', 'K']]], [[['N', 'K']]], [[['P', 'K']], 'raise'], ['raise', [['P', 'K']]],
+              [[['N', 'K'], ['P', 'K']], [['P', 'K']]], ['raise', 'raise']]
+
+
+def gen_disconnect_callbacks():
+    """notifyOnDisconnect callbacks that raise and / or issue calls, 0-2 calls outstanding when the connection is
+    lost; afterwards the deadlines of everything that had one, and a late reply."""
+    for nbase in (0, 1, 2):
+        for base_tmo in ('P', 'N'):
+            for acts in DC_ACTIONS:
+                for early in (False, True):
+                    ops = [['ondisc', a] for a in acts] if early else []
+                    ops += [['call', 1, base_tmo, 'K'] for _ in range(nbase)]
+                    if not early:
+                        ops += [['ondisc', a] for a in acts]
+                    ops.append(['lost', 0])
+                    for i, a in enumerate(acts):
+                        if a != 'raise':
+                            for j, (tmo, rs) in enumerate(a):
+                                if tmo == 'P':
+                                    ops.append(['expire', ['d', i, j]])
+                    if nbase and base_tmo == 'P':
+                        ops.append(['expire', 0])
+                    if nbase:
+                        ops.append(['ret', nbase - 1, 2])
+                    yield {'stream': 'disconnect-callbacks', 'ready': True, 'serial0': 1, 'ops': ops}
 
 
 def gen_reuse(rng):
@@ -1270,7 +1469,7 @@ def monitor_scenario(scn):
     return im, steps, mon.problems
 
 
-ORACLE_STREAMS = ('interleave-exhaustive', 'random-schedules', 'reentrant')
+ORACLE_STREAMS = ('interleave-exhaustive', 'random-schedules', 'reentrant', 'disconnect-callbacks')
 
 
 def process_batch(ctx, batch):
@@ -1303,7 +1502,13 @@ def process_batch(ctx, batch):
             merged = []
             for st in steps:
                 k = len(st.lines)
-                merged.append(merge_lines(out[pos:pos + k]))
+                ans = merge_lines(out[pos:pos + k]) if k else 'ok'
+                if ans == 'ok':
+                    # the operation only registers a callback (or concerns another connection): the model's state
+                    # is what it was
+                    m = LINE_RE.match(merged[-1]) if merged else None
+                    ans = 'F[] P[%s] T[%s] X[]' % ((m.group(2), m.group(3)) if m else ('', ''))
+                merged.append(ans)
                 pos += k
             impl_lines = [st.obs for st in steps]
             if merged != impl_lines:
@@ -1327,8 +1532,9 @@ def stats(ctx, scn, im, steps):
             if len(o) > 4 and o[4]:
                 ctx.stat('call-with-retrying-errback')
     for st in steps:
-        if len(st.created) > (1 if st.op[0] in ('call', 'callbad', 'recall') else 0):
-            ctx.stat('retry-issued-inside:' + st.op[0], len(st.created) - (1 if st.op[0] in ('call', 'callbad', 'recall') else 0))
+        own = 1 if st.op[0] in ('call', 'callbad', 'callbig', 'recall', 'hello') else 0
+        if len(st.created) > own:
+            ctx.stat('call-issued-by-callback-inside:' + st.op[0], len(st.created) - own)
         for did, k, v in st.new:
             if k == 'cb':
                 ctx.stat('completion:value')
@@ -1365,12 +1571,17 @@ def run(ctx):
         for b in batches(gen_exhaustive(ctx), 4000):
             if not process_batch(ctx, b):
                 return
-        ctx.exhaustive = True
+        # only the thorough tier enumerates its space of abstract schedules completely (all interleavings for N <= 4
+        # calls with <= 1 event each and N <= 2 with <= 2; N = 3, <= 1 event, with a loss / an unsolicited reply at every
+        # position); the quick tier samples the insertions, and reply contents rotate in both
+        ctx.exhaustive = ctx.tier == 'thorough'
         n = ctx.scale(quick=1500, thorough=15000)
         for b in batches((gen_random(ctx.rng, 12) for _ in range(n)), 4000):
             if not process_batch(ctx, b):
                 return
         if not process_batch(ctx, list(gen_reentrant_systematic())):
+            return
+        if not process_batch(ctx, list(gen_disconnect_callbacks())):
             return
         k = ctx.scale(quick=700, thorough=12000)
         for b in batches((gen_reentrant_random(ctx.rng) for _ in range(k)), 4000):
